@@ -2,7 +2,6 @@ use crate::{memory::*, util::string_to_list};
 use crate::util::*;
 use crate::error_utils::*;
 use super::NativeFunctionMetaData;
-use std::io::BufReader;
 use std::io::prelude::*;
 
 
@@ -21,10 +20,9 @@ pub fn input_file(mem: &mut Memory, args: &[GcRef], _env: GcRef, _recursion_dept
 
     if symbol_eq!(input_source, mem.symbol_for("*stdin*")) {
         let mut line = String::new();
-        let mut stdin = BufReader::new(mem.stdin.as_mut());
 
         loop {
-            match stdin.read_line(&mut line) {
+            match mem.stdin.read_line(&mut line) {
                 Err(err) => {
                     if err.kind() == std::io::ErrorKind::TimedOut {
                         if let Some(umb) = &mem.umbilical {
